@@ -30,7 +30,7 @@ package load
 // highThru: both the smoothed and the current in-flight count exceed the estimated capacity.
 //@ func (*adaptiveShedder).highThru
 //@   prop C09
-//@   requires shOK(as) && 0.0 <= as.avgFlying && as.avgFlying < 9000000000000000000.0 && as.windows >= 0 && as.windows <= 1000000
+//@   requires shOK(as) && 0.0 <= as.avgFlying && as.avgFlying < 9000000000000000000.0 && as.windows >= 0.0 && as.windows <= 1000000.0
 //@   ensures [both-exceed] result == (trunc(as.avgFlying) > ret(as.maxFlight) && as.flying > ret(as.maxFlight))
 //@   modifies as.avgFlyingLock.lock
 
@@ -49,8 +49,8 @@ package load
 // maxFlight = max(1, maxPass * windows * minRt / 1000), truncated.
 //@ func (*adaptiveShedder).maxFlight
 //@   prop C09
-//@   requires shOK(as) && as.windows >= 0 && as.windows <= 1000000
-//@   ensures [capacity] 1 <= ret(as.maxPass) && ret(as.maxPass) <= 1000000000 ==> result == trunc(max(1.0, real(ret(as.maxPass) * as.windows) * (ret(as.minRt) / 1000.0)))
+//@   requires shOK(as) && as.windows >= 0.0 && as.windows <= 1000000.0
+//@   ensures [capacity] 1 <= ret(as.maxPass) && ret(as.maxPass) <= 1000000000 ==> result == trunc(max(1.0, real(ret(as.maxPass)) * as.windows * (ret(as.minRt) / 1000.0)))
 //@   ensures [at-least-one] 1 <= ret(as.maxPass) && ret(as.maxPass) <= 1000000000 ==> result >= 1
 //@   modifies nothing
 
@@ -73,7 +73,7 @@ package load
 //@ func (*adaptiveShedder).shouldDrop
 //@   prop C09
 //@   opaque Sprintf, Error, Report, CpuUsage, maxPass, minRt
-//@   requires shOK(as) && 0.0 <= as.avgFlying && as.avgFlying < 9000000000000000000.0 && as.windows >= 0 && as.windows <= 1000000
+//@   requires shOK(as) && 0.0 <= as.avgFlying && as.avgFlying < 9000000000000000000.0 && as.windows >= 0.0 && as.windows <= 1000000.0
 //@   let overloaded = ret(as.systemOverloaded)
 //@   let dropped0 = old(*as.droppedRecently) == 1
 //@   let ot0 = old(*as.overloadTime)
@@ -137,5 +137,12 @@ package load
 //@   ensures [wired] ret(True) ==> typeis(result, ptr(adaptiveShedder)) && sh.passCounter == ret(collection.NewRollingWindow, 0, 1) && sh.rtCounter == ret(collection.NewRollingWindow, 0, 2) && sh.flying == 0 && sh.cpuThreshold == local(options).cpuThreshold
 // the bucket duration and the buckets-per-second factor follow the CONFIGURED window and bucket count (options
 // are applied before they are derived)
-//@   ensures [derived-from-the-configured-options] ret(True) && local(options).buckets > 0 && local(options).window >= local(options).buckets ==> arg(collection.NewRollingWindow, 0, 1) == local(options).buckets && arg(collection.NewRollingWindow, 1, 1) == local(options).window / local(options).buckets && sh.windows == 1000000000 / (local(options).window / local(options).buckets)
-//@   ensures [defaults] ret(True) && len(opts) == 0 ==> arg(collection.NewRollingWindow, 0, 1) == 50 && arg(collection.NewRollingWindow, 1, 1) == 100000000 && sh.windows == 10 && sh.cpuThreshold == 900
+//@   ensures [derived-from-the-configured-options] ret(True) && local(options).buckets > 0 && local(options).window >= local(options).buckets ==> arg(collection.NewRollingWindow, 0, 1) == local(options).buckets && arg(collection.NewRollingWindow, 1, 1) == local(options).window / local(options).buckets
+// buckets per second is the exact ratio one second / bucket duration (not its integer part: a bucket longer than
+// a second, or one that does not divide it, must not zero or shrink the capacity estimate)
+//@   observe Window = local(options).window
+//@   observe Buckets = local(options).buckets
+//@   replay load_windows
+//@   replay-assume local(options).buckets > 0 && local(options).buckets <= 1000 && local(options).window >= local(options).buckets && local(options).window <= 3600000000000
+//@   ensures [buckets-per-second-exact] ret(True) && local(options).buckets > 0 && local(options).window >= local(options).buckets ==> sh.windows * real(local(options).window / local(options).buckets) == 1000000000.0
+//@   ensures [defaults] ret(True) && len(opts) == 0 ==> arg(collection.NewRollingWindow, 0, 1) == 50 && arg(collection.NewRollingWindow, 1, 1) == 100000000 && sh.windows == 10.0 && sh.cpuThreshold == 900
